@@ -424,6 +424,7 @@ func TestCrash(t *testing.T) {
 	}
 	if mode == "machine" {
 		directedEpochReuse(t, tw, seed, stats)
+		directedUploadDuringSync(t, tw, seed, stats)
 	}
 	b, _ := json.Marshal(stats)
 	os.WriteFile(filepath.Join(out, "summary.json"), b, 0o644)
@@ -493,5 +494,104 @@ func directedEpochReuse(t *testing.T, tw *hx.Writer, seed int64, stats map[strin
 			stats["traces"]++
 			stats["directed"]++
 		}
+	}
+}
+
+
+// directedUploadDuringSync: an upload is finalized while a data sync is in flight (after NotifySyncStarting,
+// before NotifySyncCompleted).  Its data is not covered by that sync, so the state written after the sync must
+// not make its index record valid: after a crash that loses the unsynced data but keeps the index record, the
+// object must be gone, not served with whatever lies at its location.
+func directedUploadDuringSync(t *testing.T, tw *hx.Writer, seed int64, stats map[string]int) {
+	for variant, sector := range []int{1, 2} {
+		cfg := Config{Access: "flat", Alloc: "dev", Index: "dev", Policy: "immutable", Factory: "cas", Old: 0, Cur: 1, New: 1, Spare: 1,
+			Sector: sector, BlockSectors: 8 / sector, IndexSlots: 31, MaxGet: 8, MaxPut: 16}
+		keys := map[string]KeyDef{"k0": {Cid: 40, Size: 2}, "k1": {Cid: 41, Size: 2}, "k2": {Cid: 42, Size: 3}}
+		pr := pRun{Seed: seed, Cfg: cfg, Keys: keys, MinEpoch: 60 * time.Second}
+		var media *Media
+		var pre []map[string]any
+		synctest.Test(t, func(t *testing.T) {
+			log := &Log{}
+			w := newPersistentWorld(cfg, keys, nil, PersistConfig{MinEpoch: pr.MinEpoch}, log)
+			installYield(w)
+			defer installYield(nil)
+			w.st.StartSyncers()
+			w.sc.Settle()
+			// release everything that is parked except the data sync itself
+			drainButSync := func() {
+				for i := 0; i < 1000; i++ {
+					parked := w.sc.Parked()
+					l := ""
+					for _, q := range parked {
+						if q != "sync" && releasable(q, parked) {
+							l = q
+							break
+						}
+					}
+					if l == "" {
+						return
+					}
+					w.log.SetCur("drain")
+					w.sc.Release(l)
+				}
+			}
+			put := func(k string) {
+				w.log.SetCur("c1")
+				w.start(Step{Do: "start", P: "c1", Op: "Put", K: k})
+				w.sc.Settle()
+				drainButSync()
+			}
+			put("k0") // wakes the syncer; once the epoch timer has expired it parks inside the data sync
+			for i := 0; i < 20 && !w.sc.IsParked("sync"); i++ {
+				if ts := w.st.P.Clock.Pending(); len(ts) > 0 {
+					w.log.Emit(map[string]any{"ev": "TimerFire", "id": ts[0].ID})
+					w.st.P.Clock.Fire(ts[0].ID)
+					w.sc.Settle()
+				}
+				drainButSync()
+			}
+			inSync := w.sc.IsParked("sync")
+			put("k1") // finalized while that sync is in flight
+			w.log.Emit(map[string]any{"ev": "Note", "what": "directed: upload finalized during a data sync", "syncWasInFlight": inSync})
+			drain(w, false) // the sync completes, the state is written; no timer fires, so no further sync
+			w.st.P.Machine.CrashNow()
+			w.log.Emit(map[string]any{"ev": "CrashPoint", "n": w.st.P.Machine.Ops, "what": "directed: after the commit that raced with an upload"})
+			w.log.Mute()
+			// unsynced data writes are lost, every index record write survives
+			media = w.st.CrashMedia(func(int) bool { return false }, func(int) bool { return true }, w.st.P.Dir.JournalLen(), true)
+			w.st.StopSyncers()
+			w.finish()
+			pre = log.Mem
+		})
+		var post []map[string]any
+		synctest.Test(t, func(t *testing.T) {
+			log := &Log{}
+			w := newPersistentWorld(cfg, keys, media, PersistConfig{MinEpoch: pr.MinEpoch}, log)
+			installYield(nil)
+			w.st.StartSyncers()
+			w.sc.Settle()
+			run := func(s Step) {
+				w.log.SetCur("r1")
+				w.start(s)
+				w.sc.Settle()
+				drain(w, false)
+			}
+			for _, k := range []string{"k1", "k0"} {
+				run(Step{Do: "start", P: "r1", Op: "Fm", Ks: []string{k}})
+				run(Step{Do: "start", P: "r1", Op: "Get", K: k})
+			}
+			run(Step{Do: "start", P: "r1", Op: "Put", K: "k2"}) // lands where the lost upload was
+			for _, k := range []string{"k1", "k2", "k0"} {
+				run(Step{Do: "start", P: "r1", Op: "Fm", Ks: []string{k}})
+				run(Step{Do: "start", P: "r1", Op: "Get", K: k})
+			}
+			w.st.StopSyncers()
+			w.finish()
+			post = log.Mem
+		})
+		emitTrace(tw, fmt.Sprintf("crash/%d/directed-upload-during-sync/v%d", seed, variant), pr, pre,
+			crashPlan{Kind: "machine", N: -1, FsData: true}, post)
+		stats["traces"]++
+		stats["directed"]++
 	}
 }
